@@ -30,6 +30,7 @@ type listerRun struct {
 	P, L, D  time.Duration
 	stopAt   time.Duration // 0: run to the end
 	byCtx    bool
+	fail     func(n int) (runtime.Object, error)
 	trace    []tev
 	stopped  bool          // Done closed after the stop request
 	stopLat  time.Duration // virtual time from stop request to Done
@@ -42,6 +43,8 @@ type slowLister struct {
 	start time.Time
 	trace *[]tev
 	lat   time.Duration
+	n     int
+	fail  func(n int) (runtime.Object, error) // what the n-th call returns instead of a list, if non-nil
 }
 
 func (s *slowLister) List(ctx context.Context, _ metav1.ListOptions) (runtime.Object, error) {
@@ -60,6 +63,15 @@ func (s *slowLister) List(ctx context.Context, _ metav1.ListOptions) (runtime.Ob
 			return nil, ctx.Err()
 		}
 	}
+	s.mu.Lock()
+	s.n++
+	n := s.n
+	s.mu.Unlock()
+	if s.fail != nil {
+		if o, err := s.fail(n); o != nil || err != nil {
+			return o, err
+		}
+	}
 	return &corev1.PodList{ListMeta: metav1.ListMeta{ResourceVersion: "1"}}, nil
 }
 
@@ -70,7 +82,7 @@ func runLister(c *Ctx, r *listerRun) {
 		ctx, cancel := context.WithCancel(context.Background())
 		defer cancel()
 		stopch := make(chan struct{})
-		cl := &slowLister{mu: &mu, start: start, trace: &r.trace, lat: r.L}
+		cl := &slowLister{mu: &mu, start: start, trace: &r.trace, lat: r.L, fail: r.fail}
 		l := kcache.NewVerifLister(ctx, qlog.Silent(), stopch, r.P, cl)
 		quit := make(chan struct{})
 		go func() {
@@ -204,6 +216,33 @@ func runC13(c *Ctx) {
 			check(r, fmt.Sprintf("stop L/P=%v at %v byCtx=%v", rl, r.stopAt, r.byCtx))
 		}
 	}
+	// failing list calls: the lister hands the failure to its consumer like any
+	// other result and keeps relisting for as long as it runs (stopping is the
+	// consumer's decision)
+	failures := []struct {
+		name string
+		ret  func() (runtime.Object, error)
+	}{
+		{"error", func() (runtime.Object, error) { return nil, fmt.Errorf("injected list error") }},
+		{"context.Canceled", func() (runtime.Object, error) { return nil, context.Canceled }},
+		{"context.DeadlineExceeded", func() (runtime.Object, error) { return nil, context.DeadlineExceeded }},
+		{"not-a-list", func() (runtime.Object, error) { return &corev1.Pod{}, nil }},
+	}
+	for fi, f := range failures {
+		for _, every := range []int{1, 2, 3} {
+			f, every := f, every
+			rl, rd := []float64{0, 0.5, 1.5}[(fi+every)%3], []float64{0, 1}[every%2]
+			r := &listerRun{P: P, L: time.Duration(rl * float64(P)), D: time.Duration(rd * float64(P)), total: 14 * (P + time.Duration((rl+rd)*float64(P)))}
+			r.fail = func(n int) (runtime.Object, error) {
+				if n%every == 0 {
+					return f.ret()
+				}
+				return nil, nil
+			}
+			runLister(c, r)
+			check(r, fmt.Sprintf("every %d-th list returns %s, L/P=%v D/P=%v", every, f.name, rl, rd))
+		}
+	}
 	// other periods, seeded
 	n := 20
 	if !c.Quick() {
@@ -220,6 +259,6 @@ func runC13(c *Ctx) {
 		runLister(c, r)
 		check(r, fmt.Sprintf("random P=%v L=%v D=%v", p, l, d))
 	}
-	c.Rep.Rule = "lister+ticker in isolation (verif export) inside a synctest bubble with a fake list client: (period, list latency, consumption delay) on a grid with latency/period in {0,1/4,1/2,1,3/2,2,3,5} and delay/period in {0,1/2,1,2,3}, seeded random triples, and stop requests (stop channel / context) swept across the list/tick cycle. Observed: virtual timestamps of list start/end and result consumption, Done after stop, bubble deadlock. Oracles: lists keep being issued (count over the horizon), Done closes at once after stop, no goroutine left blocked; the trace is checked by the model-derived predicate trace_ok (one list at a time, each start >= previous consumption + 0.9 period and after the previous end). Non-trivial = run with >= 3 list calls."
+	c.Rep.Rule = "lister+ticker in isolation (verif export) inside a synctest bubble with a fake list client: (period, list latency, consumption delay) on a grid with latency/period in {0,1/4,1/2,1,3/2,2,3,5} and delay/period in {0,1/2,1,2,3}, seeded random triples, stop requests (stop channel / context) swept across the list/tick cycle, and every 1st/2nd/3rd list call failing with {error, context.Canceled, context.DeadlineExceeded, not a list}. Observed: virtual timestamps of list start/end and result consumption, Done after stop, bubble deadlock. Oracles: lists keep being issued (count over the horizon), Done closes at once after stop, no goroutine left blocked; the trace is checked by the model-derived predicate trace_ok (one list at a time, each start >= previous consumption + 0.9 period and after the previous end). Non-trivial = run with >= 3 list calls."
 	c.Rep.Stats["runs"] = runs
 }
